@@ -247,7 +247,7 @@ def _journal_state(path):
 
 def run_alone(modname, variant, tier, seed, case, builddir, timeout, workdir, halt=False):
     """Re-run one case in its own process. -> dict(status=ok|died|timeout, rc, log, result)"""
-    cf = os.path.join(workdir, "alone.%s.json" % digest(case)[:12])
+    cf = os.path.join(workdir, "alone.%s.%s.json" % (variant, digest(case)[:12]))
     with open(cf, "w") as f:
         f.write(canon(case))
     out = cf + ".out"
@@ -257,12 +257,24 @@ def run_alone(modname, variant, tier, seed, case, builddir, timeout, workdir, ha
     env["PYTHONPATH"] = HERE
     env["VERIF_VARIANT"] = variant
     cmd = [PY, "-X", "faulthandler", "-m", "vlib.runner", "--replay1", modname, variant, tier, str(seed), cf, builddir, out]
-    try:
-        p = subprocess.run(cmd, cwd=HERE, env=env, stdout=subprocess.PIPE, stderr=subprocess.STDOUT,
-                           timeout=timeout)
-    except subprocess.TimeoutExpired as e:
-        return {"status": "timeout", "rc": None, "log": (e.stdout or b"").decode(errors="replace")[-3000:]}
-    log = p.stdout.decode(errors="replace")
+    # output goes to a file, not a pipe: the sanitizer's llvm-symbolizer child inherits the descriptor and would
+    # keep a pipe open long after the process under test is gone
+    logfile = cf + ".log"
+    with open(logfile, "wb") as lf:
+        p = subprocess.Popen(cmd, cwd=HERE, env=env, stdout=lf, stderr=subprocess.STDOUT, preexec_fn=os.setsid)
+        try:
+            p.wait(timeout=timeout)
+            timed_out = False
+        except subprocess.TimeoutExpired:
+            timed_out = True
+        try:
+            os.killpg(p.pid, signal.SIGKILL)
+        except OSError:
+            pass
+        p.wait()
+    log = open(logfile, "rb").read().decode(errors="replace")
+    if timed_out:
+        return {"status": "timeout", "rc": None, "log": _trim_log(log)}
     res = None
     if os.path.exists(out):
         res = json.load(open(out))
@@ -393,12 +405,11 @@ def main(module, argv=None):
                     stalled = rc is None and (now - pr["last"] > stall)
                     if rc is None and not stalled and now < hard_deadline:
                         continue
-                    if rc is None:
-                        try:
-                            os.killpg(pr["p"].pid, signal.SIGKILL)
-                        except OSError:
-                            pass
-                        pr["p"].wait()
+                    try:
+                        os.killpg(pr["p"].pid, signal.SIGKILL)     # also reaps orphaned symbolizer children
+                    except OSError:
+                        pass
+                    pr["p"].wait()
                     procs.remove(pr)
                     pr["logf"].close()
                     open_i, open_case, nxt, ended = _journal_state(jp)
@@ -448,7 +459,7 @@ def main(module, argv=None):
             if m:
                 for k in known:
                     if k.get("mechanism") == m and k.get("status") == "known" and \
-                            vio["property"] in k.get("properties", [k.get("property")]):
+                            (vio["property"] in k.get("properties", []) or "*" in k.get("properties", [])):
                         return m
             return None
 
@@ -473,9 +484,20 @@ def main(module, argv=None):
 
         def confirm(item):
             d, vio = item
-            return run_alone(modname, d["variant"], tier, seed, d["case"], builds[d["variant"]],
-                             max(stall * 2, 60), workdir)
-        with ThreadPoolExecutor(max_workers=min(16, max(1, len(todo[:cap])))) as ex:
+            tmo = max(stall * 4, 180)
+            if d["variant"] != "asan":
+                # attribute a death on an uninstrumented build by re-running the case under ASan
+                try:
+                    ab = builds.get("asan") or vbuild.ensure("asan")
+                    builds["asan"] = ab
+                    ra = run_alone(modname, "asan", tier, seed, d["case"], ab, tmo, workdir)
+                    if ra["status"] != "ok":
+                        ra["via"] = "asan"
+                        return ra
+                except vbuild.BuildError:
+                    pass
+            return run_alone(modname, d["variant"], tier, seed, d["case"], builds[d["variant"]], tmo, workdir)
+        with ThreadPoolExecutor(max_workers=min(8, max(1, len(todo[:cap])))) as ex:
             confirmations = list(ex.map(confirm, todo[:cap]))
         for (d, vio), r in zip(todo[:cap], confirmations):
             if r["status"] == "ok":
@@ -486,7 +508,10 @@ def main(module, argv=None):
                         d["rc"], canon(d["case"])[:300], d["log"][:600]))
                 continue
             vio["kind"] = "hang" if r["status"] == "timeout" else "process-death"
-            vio["detail"] = {"rc": r["rc"], "signal": _signame(r["rc"]), "report": r["log"]}
+            vio["detail"] = {"rc": r["rc"], "signal": _signame(r["rc"]), "report": r["log"],
+                             "first_seen": {"variant": d["variant"], "rc": d["rc"], "signal": _signame(d["rc"])}}
+            if r.get("via"):
+                vio["detail"]["report_from"] = r["via"]
             violations.append(vio)
         for d, vio in todo[cap:]:
             vio["detail"]["unconfirmed"] = True
